@@ -569,6 +569,7 @@ void *qvector_popat(qvector_t *vector, int index) {
     vector->lock(vector);
     void *data = get_at(vector, index, true);
     if (data == NULL) {
+        vector->unlock(vector);
         return NULL;
     }
 
